@@ -5,7 +5,7 @@ TLA+ (spec/Bump.tla) decides what dt_bump(t, bump) denotes.  This driver only re
 result as [ordinal, second of day, microsecond] (or the exception class) and either compares it
 with == against what TLC printed (S2C) or hands it to spec/Trace_Bump.tla (C2S).
 """
-import datetime, multiprocessing, os
+import datetime, json, multiprocessing, os
 
 FIXED, MONTH = ('d', 'w', 'h', 'n', 's'), ('m', 'q', 'y')
 UNITS = ('b',) + FIXED + MONTH
@@ -87,6 +87,7 @@ def expect(ctx, t, bump, form, want):
 
 
 def s2c_units(ctx, cases):
+    cases = sorted(cases, key=lambda c: (c['o'], c['n']))                 # TLC prints in no particular order
     for i, c in enumerate(cases):
         o, n = c['o'], c['n']
         t = [o, 0, 0]
@@ -110,6 +111,7 @@ def s2c_units(ctx, cases):
 
 def s2c_compound(ctx, cases):
     forms = ('l', 'args', 'dt', 'dtargs', 'mixed', 'u')
+    cases = sorted(cases, key=lambda c: json.dumps([c['t'], c['tenor']]))
     for i, c in enumerate(cases):
         b = ['tenor', c['tenor']]
         expect(ctx, c['t'], b, 'l', c['out'])
@@ -125,12 +127,13 @@ def _scan(job):
     """worker: real dt_bump on every midnight start of [lo, hi) x n x every single-unit form.
     Returns {group key: [count, witness start ordinal, witness result ordinal]} and stray outcomes
     (exceptions / non-datetimes) as raw observations."""
-    lo, hi, nmax = job
+    lo, hi, nmax, upper_every = job
     from pyg_base import dt_bump
     fo = datetime.datetime.fromordinal
     days = datetime.timedelta
     groups, stray, nstray = {}, [], 0
-    strs = [(u, n, cs, part_str(n, u, cs)) for n in range(-nmax, nmax + 1) for u in UNITS for cs in ('l', 'u')]
+    strs = [(u, n, cs, part_str(n, u, cs)) for n in range(-nmax, nmax + 1) for u in UNITS for cs in ('l', 'u')
+            if cs == 'l' or n % upper_every == 0]
     for o in range(lo, hi):
         t = fo(o)
         wd, y, m, d = t.weekday(), t.year, t.month, t.day
@@ -183,11 +186,11 @@ def group_obs(key, g):
             'dd': dd, 's1': s1, 'u1': u1, 'cnt': cnt, 'wit': [o, ro]}
 
 
-def bulk(ctx, ranges, nmax=60):
+def bulk(ctx, ranges, nmax=60, upper_every=1):
     jobs = []
     for lo, hi in ranges:                        # cut into ~2-month jobs so that 16 processes share them
         step = 61
-        jobs += [(a, min(a + step, hi), nmax) for a in range(lo, hi, step)]
+        jobs += [(a, min(a + step, hi), nmax, upper_every) for a in range(lo, hi, step)]
     nproc = max(1, min(16, os.cpu_count() or 1, len(jobs)))
     with multiprocessing.get_context('fork').Pool(nproc) as pool:
         parts = pool.map(_scan, jobs, chunksize=1)
@@ -204,7 +207,8 @@ def bulk(ctx, ranges, nmax=60):
                 if v[1] < w[1]:
                     w[1], w[2] = v[1], v[2]
     ndays = sum(hi - lo for lo, hi in ranges)
-    total = ndays * (2 * nmax + 1) * (2 * len(UNITS) + 2)
+    nupper = len([n for n in range(-nmax, nmax + 1) if n % upper_every == 0])
+    total = ndays * ((2 * nmax + 1) * (len(UNITS) + 2) + nupper * len(UNITS))
     if sum(v[0] for v in groups.values()) + nstray != total:
         from harness.core import Machinery
         raise Machinery('bulk scan lost observations: %d grouped + %d stray != %d' % (sum(v[0] for v in groups.values()), nstray, total))
@@ -245,8 +249,8 @@ def rand_raw(rng, n):
     return obs
 
 
-def c2s(ctx, ranges, nraw):
-    obs, total, nstray = bulk(ctx, ranges)
+def c2s(ctx, ranges, nraw, upper_every):
+    obs, total, nstray = bulk(ctx, ranges, upper_every=upper_every)
     ngroups = len(obs)
     raw = rand_raw(ctx.rng, nraw)
     obs += raw
@@ -299,9 +303,9 @@ def run(ctx):
     s2c_units(ctx, ctx.generate('MC_Bump', 'MC_Bump_genU.cfg' if ctx.quick else 'MC_Bump_genU2.cfg'))
     s2c_compound(ctx, ctx.generate('MC_Bump', 'MC_Bump_genC.cfg' if ctx.quick else 'MC_Bump_genC2.cfg'))
     if ctx.quick:
-        c2s(ctx, [year_range(1999, 2001), year_range(2099, 2101)], 20000)
+        c2s(ctx, [year_range(1999, 2001), year_range(2099, 2101)], 10000, 3)     # upper-case letters for every third n
     else:
-        c2s(ctx, [(FIRST, LAST + 1)], 200000)
+        c2s(ctx, [(FIRST, LAST + 1)], 200000, 2)               # upper-case letters for every second n
     ctx.exhaustive = False
     ctx.assumptions += [
         'bulk C2S observations are grouped before TLC sees them: business days by (weekday, n, days moved, time of day of the result), '
